@@ -187,6 +187,9 @@ fn add_types_recursive(
         return;
     }
 
+    #[cfg(wgsl_to_wgpu_verif)]
+    crate::verif_hooks::count_type_visit();
+
     match &module.types[ty].inner {
         naga::TypeInner::Pointer { base, .. } => add_types_recursive(types, module, *base),
         naga::TypeInner::Array { base, .. } => add_types_recursive(types, module, *base),
